@@ -51,7 +51,13 @@ def build_and_run_cpp(rep, tag, defs, entries, wd, stds=("c++17", "c++20"), name
         rep.violation({"leg": "tool", "what": "C++ backend failed on the catalogue"}, {"stderr": tr["stderr"][-2000:]})
         return {}
     cg = cppgen.CppGen(defs)
-    calls = [cg.call(e["n"], e["sig"], e["args"], e["write"], invalid_utf8=e.get("invalid_utf8", False)) for e in entries]
+    calls = []
+    for e in entries:
+        blk = cg.call(e["n"], e["sig"], e["args"], e["write"], invalid_utf8=e.get("invalid_utf8", False))
+        # a method returning a string is called TWICE in a row: the second std::string must not depend on the first call
+        # (a buffer kept between calls, a writer reused without being reset)
+        e["repeat"] = 2 if (e["sig"]["write"] and not e.get("invalid_utf8") and not any(p["k"] in ("cb", "trait") for p in e["sig"]["params"])) else 1
+        calls += [blk] * e["repeat"]
     headers = sorted(os.path.relpath(os.path.join(r, f), out) for r, _, fs in os.walk(out) for f in fs
                      if f.endswith(".hpp") and not f.endswith(".d.hpp"))
     drv = (cppgen.CPP_SUPPORT + "".join('#include "%s"\n' % h for h in headers) + (ns_aliases() if namespaced else "") + cppgen.WTOK +
@@ -106,9 +112,18 @@ def check_events_cpp(rep, g, entries, events, std):
         retv = e["retv"]
         no_string = sig["write"] and ((sig["ret"]["k"] == "res" and "err" in retv) or (sig["ret"]["k"] == "opt" and "none" in retv))
         want = ["CCall", "RustEnter", "RustReturn", "CReturn"] + (["CWrite"] if sig["write"] and not no_string else [])
-        if kinds != want:
-            rep.violation(dict(key, what="call protocol (exactly once, in order)"), {"sig": sig, "events": evs, "expected_order": want})
+        reps = e.get("repeat", 1)
+        if kinds != want * reps:
+            rep.violation(dict(key, what="call protocol (exactly once per call, in order)"), {"sig": sig, "events": evs, "expected_order": want * reps})
             continue
+        if reps == 2:
+            # the second call of the pair is judged exactly like the first
+            first, second = evs[:len(want)], evs[len(want):]
+            if [x["v"] for x in first] != [x["v"] for x in second]:
+                rep.violation(dict(key, what="the same call made twice gives two different observations"),
+                              {"sig": sig, "first": first, "second": second})
+                continue
+            evs = first
         if not c01.check_callbacks(rep, g, e, key, evs, cb_f.get("f%d" % e["n"], [])):
             continue
         slots = []
